@@ -469,7 +469,7 @@ def _p100_payload_shape(rsp, k):
     """well-formed Port-100 response whose payload has only k bytes"""
     code = rsp[9] - 1
     status_end = {0x04: 4, 0x48: 7}.get(code)
-    if k and status_end and k < status_end:
+    if k > 0 and status_end and k < status_end:
         return "short-status"
     return "payload:%d" % min(k, 8)
 
@@ -706,6 +706,7 @@ def host_faults(driver, code, rsp, tier, seed, key):
     F += [["extend", b"\x00"], ["extend", b"\xff\x00\x17"]]
     F += [["wrongcode", 1], ["wrongcode", 0x7F], ["wrongcode", 0xFF]]
     F += [["payload", k] for k in range(0, 8) if k < len(rsp)]
+    F += [["payload", -1], ["payload", -2], ["payload", -5]]  # surplus bytes
     if has_status(driver, code):
         F += [["status", x] for x in (0x01, 0x13, 0x27, 0x80, 0xFF)]
     F += [["random", f] for f in FOREIGN]
